@@ -60,6 +60,7 @@ def check(program: Program, run: Run) -> None:
     run.rule("R1 quote-wrap requires escape: inner text of every '...'-span is escaped(q), quote-free by kind, or a rendered slot")
     run.rule("R2 dialect escape coverage: every value position of a dialect builder constructs its wrapper via self._wrapper_cls (or the base wrapper consults ctx.dialect)")
     run.rule("R3 value wrappers emit one literal fragment on every path")
+    run.rule("R8 no value-wrapping site is guarded by the truthiness of the value it wraps (falsy values are values)")
     run.rule("R7 every str.format() template is constant text: rendered SQL (which may contain a value's braces) is never used as a format template")
     run.rule("R6 exhaustive table (value kind x wrapper class) on typed symbolic values: each quoted kind is one quoted literal with the quote doubled, a wrapper that doubles backslashes for any kind does so for every kind that can contain one, and a str-mixin Enum member is never formatted as the member")
     run.rule("R5 exact str: text placed in the literal under isinstance(value, str) is a call result (replace/isoformat/str) or Enum members were excluded first")
@@ -454,6 +455,44 @@ def check(program: Program, run: Run) -> None:
                 run.finding(f"C05/{code}:{c.qualname}:{kname}", f"{c.qualname}.get_value_sql: a value of kind {kname} {msg} (rendering: {txt[:100]})",
                             where=c.resolve("get_value_sql").loc(), rule="R6")
     run.analysed["value_kind_cells"] = n6
+
+    # ---- R8: 0, "", False, 0.0 and Decimal(0) are values.  A site that wraps a supplied value in a value wrapper (or calls
+    # wrap_constant on it) may be guarded by `is None` / isinstance tests on that value, never by its truthiness: the
+    # falsy value would stay unwrapped and the position (column DEFAULT, SET, upsert update) loses its literal
+    from .c04 import wrapper_sites
+    nwrap = 0
+    for f8, call8 in wrapper_sites(program) + [(f_, n_) for f_ in program.all_functions() for n_ in ast.walk(f_.node)
+                                               if isinstance(n_, ast.Call) and isinstance(n_.func, ast.Attribute) and n_.func.attr == "wrap_constant" and n_.args]:
+        a8 = call8.args[0]
+        if not isinstance(a8, (ast.Name, ast.Attribute)):
+            continue
+        src8 = ast.unparse(a8)
+        par8 = {ch: pa for pa in ast.walk(f8.node) for ch in ast.iter_child_nodes(pa)}
+        tests8 = []
+        x8 = call8
+        while x8 in par8:
+            pa8 = par8[x8]
+            if isinstance(pa8, (ast.If, ast.IfExp)) and x8 is not pa8.test:
+                tests8.append(pa8.test)
+            x8 = pa8
+        nwrap += 1
+
+        def truthy_uses(t):
+            if isinstance(t, ast.BoolOp):
+                return [u for v_ in t.values for u in truthy_uses(v_)]
+            if isinstance(t, ast.UnaryOp) and isinstance(t.op, ast.Not):
+                return truthy_uses(t.operand)
+            if isinstance(t, (ast.Name, ast.Attribute)) and ast.unparse(t) == src8:
+                return [ast.unparse(t)]
+            return []
+        bad8 = [u for t_ in tests8 for u in truthy_uses(t_)]
+        run.ob("C05/R8 a supplied value is wrapped whatever its truth value (guards test None / type only)", f"{f8.qualname}:{ast.unparse(call8)[:50]}", not bad8,
+               detail="; ".join(ast.unparse(t_)[:50] for t_ in tests8), where=f8.loc(call8))
+        if bad8:
+            run.finding(f"C05/falsy-value-unwrapped:{f8.qualname}:{src8}", f"{f8.qualname} wraps `{src8}` only when it is truthy: 0, '', False, 0.0 and Decimal(0) stay unwrapped, "
+                        "so the position renders no literal (or a raw Python value) for them", where=f8.loc(call8), rule="R8")
+    if nwrap < 10:
+        raise AnalysisError(f"instance count below floor: value wrapping sites {nwrap}")
 
     # ---- R7: rendered text is data.  `<rendered sql>.format(...)` / `(sql + " AS {alias}").format(...)` re-reads it as a
     # template: braces inside an inlined literal (JSON text, '{0}', '{{x}}') are taken for replacement fields -- they are
